@@ -225,6 +225,13 @@ func enumFaults(t *testing.T, first, last int, yield func(*c10Case) bool) {
 						return
 					}
 				}
+				// a read may also fail when it ends (after waiting for a packet or for its deadline): the last
+				// poll of a run ends after the run's own deadline has passed
+				if c.Op == "Read" && k <= c.N {
+					if !emit(Fault{Kind: c.Kind, Handle: c.Handle, Op: c.Op, K: k, Class: "fatal", Late: true}) {
+						return
+					}
+				}
 			}
 		}
 	}
@@ -235,7 +242,7 @@ func TestC10Single(t *testing.T) {
 	if tier() == "thorough" {
 		ranges = [][2]int{{1, 3}, {1, 8}, {250, 255}, {2, 2}}
 	}
-	rec := NewRecorder("C10", "C10Single", fmt.Sprintf("fault enumeration: for every variant and TTL range in %v, one fault-free run counts the calls N of every operation of every handle, then EVERY single fault (sink/source factory, WriteTo, Read, SetReadDeadline, SetPacketFilter incl. the second SACK filter, Close; k in 1..N+1; classes fatal / spurious deadline / zero-length) is injected; oracle: (nil, error wrapping the injected sentinel) for fatal, same-success-or-clean-failure for a spurious deadline, never a partial result, every handle closed exactly once, nothing used after Close or after return, no goroutine or fd left; non-trivial = the fault fired at k >= 2 or in filter/factory code; exhaustive over that product", ranges))
+	rec := NewRecorder("C10", "C10Single", fmt.Sprintf("fault enumeration: for every variant and TTL range in %v, one fault-free run counts the calls N of every operation of every handle, then EVERY single fault (sink/source factory, WriteTo, Read (failing at the beginning or at the end of the call), SetReadDeadline, SetPacketFilter incl. the second SACK filter, Close; k in 1..N+1; classes fatal / spurious deadline / zero-length) is injected; oracle: (nil, error wrapping the injected sentinel) for fatal, same-success-or-clean-failure for a spurious deadline, never a partial result, every handle closed exactly once, nothing used after Close or after return, no goroutine or fd left; non-trivial = the fault fired at k >= 2 or in filter/factory code; exhaustive over that product", ranges))
 	rec.Exhaustive = true
 	RunCases(t, rec, func(yield func(*c10Case) bool) {
 		for _, r := range ranges {
